@@ -742,6 +742,11 @@ func chunkedSeq(e *env, prop string, mode int) {
 				{Kind: "add", Key: 0, Len: 9, Seed: 14, TTL: 50}, {Kind: "sleep", SleepMs: 1100}, {Kind: "touch", Key: 0, TTL: 700}, {Kind: "sleep", SleepMs: 1100},
 				{Kind: "append", Key: 0, Len: 2 * ds, Seed: 15}, {Kind: "touch", Key: 0, TTL: 300}, {Kind: "sleep", SleepMs: 1100}, {Kind: "get", Key: 0, Keys: []int{0}},
 				{Kind: "replace", Key: 0, Len: 3, Seed: 16, TTL: 20}, {Kind: "sleep", SleepMs: 1100}, {Kind: "prepend", Key: 0, Len: 3, Seed: 17}, {Kind: "get", Key: 0, Keys: []int{0}}}},
+			// get-and-touch prolongs a short expiry; once the old expiry has passed the key must still be
+			// readable (the expiry recorded inside the metadata is stale after a gat - nothing may trust it)
+			hCase{Keys: []string{"sess"}, Spare: []int{0}, Ops: []hOp{
+				{Kind: "set", Key: 0, Len: 2*ds + 9, Seed: 31, TTL: 2}, {Kind: "gat", Key: 0, TTL: 3600}, {Kind: "sleep", SleepMs: 3100},
+				{Kind: "get", Key: 0, Keys: []int{0}}, {Kind: "gat", Key: 0, TTL: 3600}, {Kind: "touch", Key: 0, TTL: 0}, {Kind: "get", Key: 0, Keys: []int{0}}}},
 			// a set with an absolute TTL in the past is acknowledged without effect
 			hCase{Keys: []string{"key"}, Spare: []int{0}, Ops: []hOp{
 				{Kind: "set", Key: 0, Len: 2*ds + 1, Seed: 3}, {Kind: "set", Key: 0, Len: 7, Seed: 4, TTLRel: "abs-past", TTL: 5},
